@@ -79,7 +79,7 @@ CLAIMS = {
          "bound and is always enabled, neither panic reachable, index partition invariant; on real code the own-step "
          "count of every operation after the last foreign step is validated (<= 6 + spurious) and panic/deadlock "
          "events reject the trace; scheduler strategy Hold reaches \"all five indices in flight\"; ChannelProof.tla carries "
-         "a TLAPS proof (33 obligations, re-checked) that at the index-ownership level no enqueue lacks room and no "
+         "a TLAPS proof (38 obligations, re-checked) that at the index-ownership level no enqueue lacks room and no "
          "receiver meets an empty cell, for any number of concurrent / nested operations",
          "7.C08", "freeze-mode TLA+ model + exhaustive schedules of real code + TLC trace validation"),
  "C09": ("model_checking",
